@@ -22,8 +22,16 @@ BASE = {
     "SE23":  GD("SE23",  [("lin", 3), ("rot4", 4), ("lin", 3)], [("lin", 3), ("ang3", 3), ("lin", 3)], 3, 5, 6),
     "SGal3": GD("SGal3", [("lin", 3), ("rot4", 4), ("lin", 3), ("lin", 1)], [("lin", 3), ("lin", 3), ("ang3", 3), ("lin", 1)], 3, 5, 7),
 }
+BUNDLES = {"B[SO2,SE3,R5,SGal3]": 100, "B[R1,SO3,SE2]": 101, "B[SE23,R2,SO3]": 102, "B[SGal3,SO2,SO2,SE23]": 103,
+           "B[SE2]": 104, "B[SE3,SE3]": 104, "B[SO3,SGal3,R3,SE2,SE3]": 105}
+def bundle_elems(name): return name[2:-1].split(",")
 def group(name):
     if name in BASE: return BASE[name]
+    if name.startswith("B["):
+        els = [group(e) for e in bundle_elems(name)]
+        gd = GD(name, [p for e in els for p in e.eparts], [p for e in els for p in e.tparts], sum(e.dim for e in els), sum(e.alg for e in els), BUNDLES.get(name))
+        gd.elems = els
+        return gd
     m = re.fullmatch(r"R(\d+)", name)
     if m:
         n = int(m.group(1)); return GD(name, [("lin", n)], [("lin", n)], n, n + 1, 3)
@@ -86,6 +94,7 @@ NO_ROTATION = lambda gn: gn.startswith("R") or gn.startswith("B")
 def op_applicable(op, gn):
     if op == "Rotation": return not NO_ROTATION(gn)
     if op == "Translation": return gn in ("SE2", "SE3", "SE23", "SGal3")
+    if gn.startswith("B") and op in ("Normalize", "Rotation", "Ctor", "History", "Decasteljau", "Average", "Interp"): return False
     if op in ("Normalize",): return not NO_ROTATION(gn)
     if op == "AssertOk": return False      # only meaningful in the assertion-enabled build (see ASSERT_OPS)
     return True
@@ -146,9 +155,8 @@ def harness_specs(gsets, ndebug=True, flt=False, scalar="q"):
     return specs
 
 def gset_of(gn):
-    if gn.startswith("B"): return BUNDLE_SETS.get(gn)
+    if gn.startswith("B"): return BUNDLES.get(gn)
     return group(gn).gset
-BUNDLE_SETS = {}
 
 def run_cases(cases, ndebug=True, timeout=1200, scalar="q", model=True):
     """cases: list of dicts (see gen_case). Returns (results, build_errors) where results is a list of
